@@ -183,6 +183,9 @@ func TestAAC(t *testing.T) {
 	if err != nil || !a.SBR || a.BaseObjectType != 2 || a.Frequency != 22050 || a.ExtFrequency != 44100 {
 		t.Fatalf("%+v %v", a, err)
 	}
+	if !bytes.Equal(BuildASCExplicitSBR(false, 7, 2, 4, 2, false), unhex("2b920800")) {
+		t.Fatalf("BuildASCExplicitSBR %x", BuildASCExplicitSBR(false, 7, 2, 4, 2, false))
+	}
 	h, err := ParseADTS(unhex("fff15080043ffc")) // LC 44100 stereo, frame length 33
 	if err != nil || h.Profile != 1 || h.FreqIndex != 4 || h.ChannelConfig != 2 || h.FrameLength != 33 || h.ID != 0 || !h.ProtectionAbsent {
 		t.Fatalf("%+v %v", h, err)
@@ -205,6 +208,24 @@ func TestH265Model(t *testing.T) {
 	pw, ph, err := ParseH265SPSSize(nal)
 	if err != nil || pw != w || ph != h || w != 1928 || h != 1088 {
 		t.Fatalf("%d %d %v", pw, ph, err)
+	}
+	// conformance window: offsets count chroma sample units
+	for _, c := range []struct {
+		cfi        uint32
+		l, r, t, b uint32
+		w, h       uint32
+	}{{1, 0, 0, 0, 4, 1920, 1080}, {2, 1, 2, 3, 5, 1914, 1080}, {3, 1, 2, 3, 5, 1917, 1080}, {0, 1, 0, 0, 8, 1919, 1080}} {
+		cs := *s
+		cs.ChromaFormatIdc, cs.SeparateColourPlane, cs.Width, cs.Height = c.cfi, false, 1920, 1088
+		cs.ConfWin, cs.ConfWinL, cs.ConfWinR, cs.ConfWinT, cs.ConfWinB = true, c.l, c.r, c.t, c.b
+		nal, w, h, err := cs.EncodeNAL()
+		if err != nil {
+			t.Fatal(err)
+		}
+		pw, ph, err := ParseH265SPSSize(nal)
+		if err != nil || w != c.w || h != c.h || pw != w || ph != h {
+			t.Fatalf("conf window %+v: model %dx%d parser %dx%d %v", c, w, h, pw, ph, err)
+		}
 	}
 	// x265 1920x1080 SPS (conformance window bottom 4 in 4:2:0 units)
 	pw, ph, err = ParseH265SPSSize(unhex("420101016000000300900000030000030078a003c08010e59656924caf01680800001f480005dc0c"))
